@@ -268,4 +268,154 @@ theorem wf_exchange {s : State} (hI : Inv s) (hidle : Idle s) {d n : Nat} {N : R
         · exact ⟨w2, by rw [repOf_eraseRep]; exact hk⟩
         · rw [hk] at hX; cases hX
 
+/-! ### `delete_rep_with_check` (assignment from an empty source, `clrS`) -/
+
+theorem deleteRepWithCheck_eq (v : Nat) (s : State) : deleteRepWithCheck v s =
+    match repOf s v with
+    | none => s
+    | some r =>
+      if ((repDisconnect r s).reps r).isSome then
+        eraseRep r (destroyRep (fuel ((repDisconnect r s).modSlot v fun V => { V with rep := none })) r
+          ((repDisconnect r s).modSlot v fun V => { V with rep := none }))
+      else repDisconnect r s := rfl
+
+/-- `rep_ = nullptr` before the deletion: the variable lets go of its representation, which is now stored nowhere -/
+theorem inv_unhold {s : State} (h : Inv s) {v r : Nat} (hv : repOf s v = some r) :
+    Inv (s.modSlot v fun V => { V with rep := none }) ∧
+      Orphan (s.modSlot v fun V => { V with rep := none }) r := by
+  have hrepv : repOf (s.modSlot v fun V => { V with rep := none }) v = none := by
+    rw [repOf_modSlot_rep, if_pos rfl]; split <;> rfl
+  have hrepo : ∀ w, w ≠ v → repOf (s.modSlot v fun V => { V with rep := none }) w = repOf s w := by
+    intro w hwv; rw [repOf_modSlot_rep, if_neg hwv]
+  have horq : Orphan (s.modSlot v fun V => { V with rep := none }) r := by
+    intro w hw
+    by_cases hwv : w = v
+    · subst hwv; rw [hrepv] at hw; cases hw
+    · rw [hrepo w hwv] at hw; exact hwv (h.repUniq w v r hw hv)
+  have horp : ∀ x, Orphan s x → Orphan (s.modSlot v fun V => { V with rep := none }) x := by
+    intro x hor w hw
+    by_cases hwv : w = v
+    · subst hwv; rw [hrepv] at hw; cases hw
+    · rw [hrepo w hwv] at hw; exact hor w hw
+  have hdisj : ∀ w x, repOf s w = some x →
+      repOf (s.modSlot v fun V => { V with rep := none }) w = some x ∨
+        Orphan (s.modSlot v fun V => { V with rep := none }) x := by
+    intro w x hw
+    by_cases hwv : w = v
+    · subst hwv; rw [hv] at hw; cases hw; exact .inr horq
+    · exact .inl (by rw [hrepo w hwv]; exact hw)
+  refine ⟨?_, horq⟩
+  refine { repAlive := ?_, repUniq := ?_, connReg := ?cr, cbsConn := ?cc, regUniq := ?_, cbsNodup := ?_,
+           parentOk := ?po, trkReg := ?_, trkEnt := ?_, trkNodup := ?_, refOk := ?_, ownOk := ?_, repBound := ?_ }
+  case cr =>
+    intro c w hcw
+    rw [conns_modSlot] at hcw
+    obtain ⟨x, X, hX, hm, hor⟩ := h.connReg c w hcw
+    refine ⟨x, X, by rw [reps_modSlot]; exact hX, hm, ?_⟩
+    rcases hor with hor | hor
+    · exact hdisj w x hor
+    · exact .inr (horp x hor)
+  case cc =>
+    intro x X c hX hm
+    rw [reps_modSlot] at hX
+    obtain ⟨w, hw, hor⟩ := h.cbsConn x X c hX hm
+    refine ⟨w, by rw [conns_modSlot]; exact hw, ?_⟩
+    rcases hor with hor | hor
+    · exact hdisj w x hor
+    · exact .inr (horp x hor)
+  case po =>
+    intro x X p w hX hp hw
+    rw [reps_modSlot] at hX ⊢
+    have hwv : w ≠ v := fun he => by subst he; rw [hrepv] at hw; cases hw
+    rw [hrepo w hwv] at hw
+    exact h.parentOk x X p w hX hp hw
+  all_goals inv_clause h with [repOf_eq]
+
+/-- **`delete_rep_with_check()` keeps the state well-formed, for every variable** — also one whose representation
+    stores the functor that keeps the variable itself alive (finding F12): the variable has let go of the
+    representation before it is deleted, so the representation is freed exactly once -/
+theorem deleteRepWithCheck_spec {s : State} (hw : WF s) (v : Nat)
+    (he : (deleteRepWithCheck v s).err = false) :
+    WF (deleteRepWithCheck v s) ∧
+      (∀ r, repOf s v = some r → (deleteRepWithCheck v s).reps r = none) ∧
+      (∀ V', (deleteRepWithCheck v s).slots v = some V' → V'.rep = none) := by
+  have hI := hw.inv
+  rw [deleteRepWithCheck_eq] at he ⊢
+  cases hv : repOf s v with
+  | none =>
+    refine ⟨hw, ?_, ?_⟩
+    · intro r hr; cases hr
+    · intro V' hV'
+      simp only [] at hV'
+      have : repOf s v = V'.rep := by simp [repOf, hV']
+      rw [← this]; exact hv
+  | some r =>
+    simp only [hv] at he ⊢
+    obtain ⟨R, hR⟩ := hI.repAlive v r hv
+    by_cases ha : ((repDisconnect r s).reps r).isSome = true
+    · simp only [ha, if_true] at he ⊢
+      rw [err_eraseRep] at he
+      have he1 : (repDisconnect r s).err = false := by
+        cases hx : (repDisconnect r s).err with
+        | false => rfl
+        | true =>
+          rw [destroyRep_err_true _ _ _ (by rw [err_modSlot]; exact hx)] at he; exact absurd he (by simp)
+      obtain ⟨hC1, hI1⟩ := repDisconnect_spec hI r he1
+      have hw1 : WF (repDisconnect r s) := wf_casc hC1 hw hI1
+      have hv1 : repOf (repDisconnect r s) v = some r := by
+        simp only [repOf, repDisconnect_slot hI hv he1]; exact hv
+      obtain ⟨R1, hR1⟩ := hI1.repAlive v r hv1
+      obtain ⟨hI2, horq⟩ := inv_unhold hI1 hv1
+      have hR2 : ((repDisconnect r s).modSlot v fun V => { V with rep := none }).reps r = some R1 := by
+        rw [reps_modSlot]; exact hR1
+      have hrepo : ∀ w, w ≠ v →
+          repOf ((repDisconnect r s).modSlot v fun V => { V with rep := none }) w = repOf (repDisconnect r s) w := by
+        intro w hwv; rw [repOf_modSlot_rep, if_neg hwv]
+      obtain ⟨hC3, hrest⟩ := destroyRep_spec
+        (fuel ((repDisconnect r s).modSlot v fun V => { V with rep := none })) r _ hI2
+      obtain ⟨hI3, hP3⟩ := hrest he
+      obtain ⟨R3, hR3⟩ := hC3.orphanKeep r R1 hR2 horq
+      have horq3 : Orphan (destroyRep (fuel ((repDisconnect r s).modSlot v fun V => { V with rep := none })) r
+          ((repDisconnect r s).modSlot v fun V => { V with rep := none })) r := by
+        intro w hw'
+        rw [repOf_eq] at hw'
+        obtain ⟨V, hV, hVr⟩ := hw'
+        exact horq w (repOf_eq.mpr ⟨V, hC3.slots w V hV, hVr⟩)
+      refine ⟨⟨inv_eraseOrphan hI3 horq3 hR3 (hP3 R3 hR3), ?_, ?_⟩, ?_, ?_⟩
+      · have hidle2 : Idle ((repDisconnect r s).modSlot v fun V => { V with rep := none }) := by
+          have := hw1.idle; unfold Idle at *; st_simp; exact this
+        have := idle_casc hC3 hidle2
+        unfold Idle at *; st_simp; exact this
+      · intro x X hX
+        rw [reps_eraseRep] at hX
+        by_cases hxr : x = r
+        · simp [hxr] at hX
+        · rw [if_neg hxr] at hX
+          obtain ⟨X2, hX2, -⟩ := hC3.reps x X hX
+          rw [reps_modSlot] at hX2
+          obtain ⟨w, hw'⟩ := hw1.held x X2 hX2
+          have hwv : w ≠ v := fun h => by subst h; rw [hv1] at hw'; cases hw'; exact hxr rfl
+          rcases hC3.killed w x (by rw [hrepo w hwv]; exact hw') with hk | ⟨-, hk⟩
+          · exact ⟨w, by rw [repOf_eraseRep]; exact hk⟩
+          · rw [hk] at hX; cases hX
+      · intro r' hr'; cases hr'; rw [reps_eraseRep, if_pos rfl]
+      · intro V' hV'
+        rw [slots_eraseRep] at hV'
+        have := hC3.slots v V' hV'
+        rw [slots_modSlot, if_pos rfl, Option.map_eq_some_iff] at this
+        obtain ⟨V0, -, rfl⟩ := this
+        rfl
+    · exfalso
+      apply ha
+      have he1 : (repDisconnect r s).err = false := by simpa [ha] using he
+      obtain ⟨-, hI1⟩ := repDisconnect_spec hI r he1
+      have hv1 : repOf (repDisconnect r s) v = some r := by
+        simp only [repOf, repDisconnect_slot hI hv he1]; exact hv
+      obtain ⟨R1, hR1⟩ := hI1.repAlive v r hv1
+      simp [hR1]
+
+theorem wf_deleteRepWithCheck {s : State} (hw : WF s) {v : Nat}
+    (he : (deleteRepWithCheck v s).err = false) : WF (deleteRepWithCheck v s) :=
+  (deleteRepWithCheck_spec hw v he).1
+
 end Sigc.SlotG
